@@ -53,6 +53,7 @@ class Harness:
         keep_uf=False,
         replay=True,
         note="",
+        nonce_fork=True,
     ):
         self.name = name
         self.fn = fn
@@ -64,6 +65,7 @@ class Harness:
         self.query_timeout_ms = query_timeout_ms
         self.keep_uf = keep_uf
         self.replay = replay
+        self.nonce_fork = nonce_fork
         self.note = note
 
     def configs_for(self, tier):
